@@ -106,18 +106,35 @@ def process_double(ck, case):
 
 def process_double_sampling(ck, rng):
     m = doubles.random_model(rng, n_dim=2, cond=[None, 0])
-    model = m.build()
-    cond = model.distributions[1]
     k = int(rng.choice([1, 3, 40]))
     gs = 10 ** rng.uniform(-1, 1.3, k)
     int_given = bool(rng.integers(0, 3) == 0)
     if int_given:
         gs = rng.integers(1, 20, k).astype(float)
     seed = int(rng.integers(0, 2**31))
-    got = np.asarray(cond.draw_sample(1, gs.astype(np.int64) if int_given else gs, random_state=seed), dtype=float).ravel()
-    u = np.random.default_rng(seed).uniform(size=(1, k)).ravel()
+    scalar_given = bool(rng.integers(0, 4) == 0)
+    if scalar_given:
+        # one scalar conditioning value (as ISORM / HDC use it), n draws from that one conditional distribution
+        k = int(rng.choice([1, 5]))
+        gs = np.full(k, gs[0])
     case = {"part": "A", "kind": "draw_sample", "model": m.describe(), "g": [float(v) for v in gs], "seed": seed,
-            "given_dtype": "int64" if int_given else "float64"}
+            "given_dtype": ("int" if int_given else "float") + ("-scalar" if scalar_given else "64")}
+    run_double_sampling(ck, case)
+
+
+def run_double_sampling(ck, case):
+    m = doubles.model_from_desc(case["model"])
+    cond = m.build().distributions[1]
+    gs = np.array(case["g"], dtype=float)
+    k, seed = len(gs), case["seed"]
+    int_given = case["given_dtype"].startswith("int")
+    if case["given_dtype"].endswith("-scalar"):
+        got = np.asarray(cond.draw_sample(k, int(gs[0]) if int_given else float(gs[0]), random_state=seed), dtype=float).ravel()
+        u = np.random.default_rng(seed).uniform(size=k).ravel()
+    else:
+        got = np.asarray(cond.draw_sample(1, gs.astype(np.int64) if int_given else gs, random_state=seed), dtype=float).ravel()
+        u = np.random.default_rng(seed).uniform(size=(1, k)).ravel()
+    ck.count("A_draw_sample_given=" + case["given_dtype"])
     ck.case(case, nontrivial=m.n_dependent() >= 1, sample=False)
     ck.count("A_draw_sample")
     line = ["RUN", "cond"] + m.tokens() + ["1", "icdf", str(k)]
@@ -324,6 +341,8 @@ def replay(ck, payload):
         process_family(ck, case, family_table())
     elif case.get("part") == "A" and "method" in case:
         process_double(ck, case)
+    elif case.get("kind") == "draw_sample":
+        run_double_sampling(ck, case)
     for s, c, d in ck.failures:
         print("oracle:", s, d)
     for op, c, d in ck.divergences:
